@@ -28,6 +28,39 @@ CHECKS = {
    "generate_tokens runs on symbolic characters through a symbolic regex matcher; on every finishing path the tiling predicate is evaluated on the symbolic token "
    "list (character equalities decided by z3 under the path condition). All strings up to length 2/3 (+newline), seeds with 1 (thorough: 2 adjacent) symbolic characters.",
    TRUST + "StringIO line splitting model", SYM),
+ "C05": ("model_checking", "§2 C05",
+   "Contexts are symbolic: p tokens before and s tokens after an expression hole are solver variables (p,s <= 1 quick, <= 2 thorough); the placeholder run of the real "
+   "parser decides per path class whether the hole is an admissible Load position; for each admissible class and each construct of the documented table the construct "
+   "run must equal the run on the written-out translation and the construct node must span exactly the inserted text. Seeds contribute every NAME position as a hole, "
+   "optionally followed by one symbolic character; $NAME/${..} are checked as Store targets.",
+   TRUST + "the documented translation table; written-out translations are parsed by this parser", SYM + "; three-way product (placeholder / construct / translation)"),
+ "C06": ("model_checking", "§2 C06",
+   "(A) command bodies with symbolic characters over the shell-word alphabet inside the four bracket forms (bodies of length <= 2/3 fully symbolic, seeds with 1-2 symbolic "
+   "characters) are compared with an independent whitespace word-splitting model; (B) n <= 3/4 word tokens with symbolic kinds and symbolic gaps: z3 proves on every path "
+   "class that neighbouring words share an argument exactly when their gap is 0.",
+   TRUST + "the word model (whitespace split, quotes/brackets protect; glued mixed words checked for count and span only)", SYM + " + z3 gap/adjacency proofs"),
+ "C07": ("model_checking", "§2 C07",
+   "Macro call arguments, subprocess-macro rests and with-macro blocks carry symbolic characters and run through the real tokenizer, raw-capture token source and parser; "
+   "the captured string constants are compared with independent reference models (bracket/quote-aware comma splitter, strip, block dedenter) and the code around/after the "
+   "macro must parse as without it.",
+   TRUST + "reference models' domain (balanced brackets, complete strings, no '#'/backslash)", SYM + "; reference splitter/dedenter models"),
+ "C09": ("model_checking", "§2 C09",
+   "generate_tokens runs on symbolic characters; each path's witness is tokenized by CPython's tokenize and significant tokens must agree in text, coordinates and order; "
+   "plus unbounded z3 regular-expression lemmas: the number/comment/whitespace sub-languages equal CPython's and extra prefixes/operators are the documented ones.",
+   TRUST + "CPython's C tokenizer as an opaque per-path oracle", SYM + " + z3 regex-language equality lemmas (sequence theory, no length bound)"),
+ "C10": ("model_checking", "§2 C10",
+   "f-string shapes (prefix x quote x literal x field x literal, several per line, multi-line) with one symbolic character, and fully symbolic f-string bodies of length 2/3, "
+   "run through the real tokenizer's f-string mode machine and the parser; tokens and trees of each path witness are compared with CPython 3.12. Known f-string defects are "
+   "keyed by feature sets computed from CPython's own token stream.",
+   TRUST + "CPython as opaque per-path oracle", SYM + "; CPython differential per path"),
+ "C14": ("model_checking", "§2 C14",
+   "Three-way product execution: parse(A), parse(B), parse(A+B) on shared solver variables (A = statement form with one symbolic character or a symbolic token row; B = statement "
+   "form or symbolic token row); on every joint path where A and B are complete sequences body(A+B) must be body(A) ++ line-shifted body(B).",
+   TRUST + "'complete sequence' = accepted alone and newline-terminated", SYM + "; product of three runs"),
+ "C15": ("model_checking", "§2 C15",
+   "Product execution on shared symbolic token streams: default options, verbose=True (print discarded) and py_version=(3,m) with m a solver variable in [8,13]; outcomes must "
+   "coincide or be a SyntaxError naming a required version above m (monotonicity proved by z3 on m); all seeds additionally run the full concrete option grid.",
+   TRUST + "print replaced by a no-op", SYM + " with a symbolic minor version; option-product"),
  "C11": ("model_checking", "§2 C11",
    "On every rejecting path of the symbolic explorations the raised SyntaxError/IndentationError is checked (message, file name, line range, column inside the line, "
    "end >= start, text begins with the line); at token level columns are z3 terms and the inequalities are proved for every spacing of the path class.",
